@@ -90,9 +90,28 @@ def _flush(trace):
 
 
 @deadline("VERIF_OBS_TIMEOUT", 10, lambda sc, traced=True: [{"e": [], "s": ["X", ["HarnessTimeout"]]}])
+def apply_share(doc, share):
+    """make the container at share[1] the very object at share[0] (equal sub-trees by construction)"""
+    if not share:
+        return doc
+    try:
+        a, b = share
+        src = doc
+        for nm in a:
+            src = src[nm]
+        host = doc
+        for nm in b[:-1]:
+            host = host[nm]
+        if enc(host[b[-1]]) == enc(src):        # (a shrunk scenario may have lost the twin)
+            host[b[-1]] = src
+    except (KeyError, IndexError, TypeError):
+        pass
+    return doc
+
+
 def observe_query(sc, traced=True):
     """returns the list of per-call records [{e: events, s: signal}]"""
-    doc = dec(sc["doc"])
+    doc = apply_share(dec(sc["doc"]), sc.get("share"))
     log = []
     b = Builder(log)
     expr = b.steps(sc["path"])
